@@ -11,34 +11,42 @@
 
 /*@unit
 name: mbuff.append.nonempty
-define: VERIF_MB_GHOSTCOPY, U_APPEND, U_NONEMPTY
+define: U_APPEND, U_NONEMPTY
 src: mbuff.c
 enforce: spif_mbuff_append
 backend: sat
+objbits: 6
+flags: --slice-formula
 timeout: 150
 */
 /*@unit
 name: mbuff.append.empty
-define: VERIF_MB_GHOSTCOPY, U_APPEND, U_EMPTY
+define: U_APPEND, U_EMPTY
 src: mbuff.c
 enforce: spif_mbuff_append
 backend: sat
+objbits: 6
+flags: --slice-formula
 timeout: 150
 */
 /*@unit
 name: mbuff.append_from_ptr.nonempty
-define: VERIF_MB_GHOSTCOPY, U_APPEND_PTR, U_NONEMPTY
+define: U_APPEND_PTR, U_NONEMPTY
 src: mbuff.c
 enforce: spif_mbuff_append_from_ptr
 backend: sat
+objbits: 6
+flags: --slice-formula
 timeout: 150
 */
 /*@unit
 name: mbuff.append_from_ptr.empty
-define: VERIF_MB_GHOSTCOPY, U_APPEND_PTR, U_EMPTY
+define: U_APPEND_PTR, U_EMPTY
 src: mbuff.c
 enforce: spif_mbuff_append_from_ptr
 backend: sat
+objbits: 6
+flags: --slice-formula
 timeout: 150
 */
 /*@unit
@@ -47,6 +55,8 @@ define: VERIF_MB_GHOSTCOPY, U_PREPEND, U_NONEMPTY
 src: mbuff.c
 enforce: spif_mbuff_prepend
 backend: sat
+objbits: 6
+flags: --slice-formula
 timeout: 150
 */
 /*@unit
@@ -55,6 +65,8 @@ define: VERIF_MB_GHOSTCOPY, U_PREPEND, U_EMPTY
 src: mbuff.c
 enforce: spif_mbuff_prepend
 backend: sat
+objbits: 6
+flags: --slice-formula
 timeout: 150
 */
 /*@unit
@@ -63,6 +75,8 @@ define: VERIF_MB_GHOSTCOPY, U_PREPEND_PTR, U_NONEMPTY
 src: mbuff.c
 enforce: spif_mbuff_prepend_from_ptr
 backend: sat
+objbits: 6
+flags: --slice-formula
 timeout: 150
 */
 /*@unit
@@ -71,6 +85,8 @@ define: VERIF_MB_GHOSTCOPY, U_PREPEND_PTR, U_EMPTY
 src: mbuff.c
 enforce: spif_mbuff_prepend_from_ptr
 backend: sat
+objbits: 6
+flags: --slice-formula
 timeout: 150
 */
 #include "vprelude.h"
